@@ -267,7 +267,7 @@ class TrigStub:
   def cs(self, x):
     """-> (cos x, sin x) as Sym / exact numbers"""
     if isinstance(x, Angle):
-      return self._rational(x.q)
+      return self._rational_linked(x.q)
     if isinstance(x, SymSum):
       return self._symsum(x)
     if isinstance(x, Sym):
@@ -280,6 +280,21 @@ class TrigStub:
             ck, sk = self._multiple(c, s, k); return ck, -sk
       raise Unsupported("cos/sin of an unregistered symbolic angle %r" % (x,))
     return None
+
+  def _rational_linked(self, q):
+    """(cos, sin) of q*pi with double-angle links to every angle requested so far (signed expressions)."""
+    q = q % 2
+    if not hasattr(self, "requested"): self.requested = {}
+    if q in self.requested: return self.requested[q]
+    C, S = self._rational(q)
+    ctx = cur()
+    for q2, (C2, S2) in list(self.requested.items()):
+      if (2 * q) % 2 == q2:          # q2 = 2q
+        ctx._add((Sym.of(C2) - (Sym.of(C) * C * 2 - 1)).eq0()); ctx._add((Sym.of(S2) - Sym.of(S) * C * 2).eq0())
+      if (2 * q2) % 2 == q:          # q = 2 q2
+        ctx._add((Sym.of(C) - (Sym.of(C2) * C2 * 2 - 1)).eq0()); ctx._add((Sym.of(S) - Sym.of(S2) * C2 * 2).eq0())
+    self.requested[q] = (C, S)
+    return C, S
 
   def _multiple(self, c, s, k):
     z = SymComplex(c, s) ** k
@@ -302,6 +317,8 @@ class TrigStub:
     ctx = cur()
     c = ctx.fresh_real("cos_%s_%s" % (q.numerator, q.denominator))
     s = ctx.fresh_real("sin_%s_%s" % (q.numerator, q.denominator))
+    if not hasattr(self, "truth"): self.truth = {}
+    self.truth[str(c.n)] = math.cos(float(q) * math.pi); self.truth[str(s.n)] = math.sin(float(q) * math.pi)
     ctx._add((c * c + s * s - 1).n == 0)
     ctx._add(c.n > 0); ctx._add(s.n > 0)
     if q == Fraction(1, 4):
@@ -342,3 +359,51 @@ class TrigStub:
 
 class SymSum:
   pass
+
+
+# ---------------------------------------------------------------------------
+# vacuity guard for stub facts: every fact must hold at the true numeric values
+# ---------------------------------------------------------------------------
+def _feval(e, env):
+  """float / bool value of a z3 term under env (name -> float); raises KeyError on unknown symbols"""
+  if z3.is_rational_value(e): return e.numerator_as_long() / e.denominator_as_long()
+  if z3.is_int_value(e): return float(e.as_long())
+  if z3.is_true(e): return True
+  if z3.is_false(e): return False
+  k = e.decl().kind()
+  if e.num_args() == 0: return env[e.decl().name()]
+  a = [_feval(c, env) for c in e.children()]
+  if k == z3.Z3_OP_ADD: return sum(a)
+  if k == z3.Z3_OP_MUL:
+    r = 1.0
+    for v in a: r *= v
+    return r
+  if k == z3.Z3_OP_SUB: return a[0] - sum(a[1:])
+  if k == z3.Z3_OP_UMINUS: return -a[0]
+  if k == z3.Z3_OP_DIV: return a[0] / a[1]
+  if k == z3.Z3_OP_POWER: return a[0] ** a[1]
+  if k == z3.Z3_OP_TO_REAL: return a[0]
+  T = 1e-9
+  if k == z3.Z3_OP_EQ: return abs(a[0] - a[1]) <= T * max(1.0, abs(a[0]), abs(a[1])) if not isinstance(a[0], bool) else a[0] == a[1]
+  if k == z3.Z3_OP_DISTINCT: return abs(a[0] - a[1]) > T
+  if k == z3.Z3_OP_LE: return a[0] <= a[1] + T
+  if k == z3.Z3_OP_GE: return a[0] >= a[1] - T
+  if k == z3.Z3_OP_LT: return a[0] < a[1] + T
+  if k == z3.Z3_OP_GT: return a[0] > a[1] - T
+  if k == z3.Z3_OP_NOT: return not a[0]
+  if k == z3.Z3_OP_AND: return all(a)
+  if k == z3.Z3_OP_OR: return any(a)
+  if k == z3.Z3_OP_IMPLIES: return (not a[0]) or a[1]
+  raise KeyError("operator %s" % e.decl().name())
+
+
+def check_facts_numerically(ctx, env):
+  """Every path-condition conjunct that only mentions symbols of env must be true there.  -> list of failures"""
+  bad = []
+  for e, _ in ctx.pc:
+    try:
+      ok = _feval(e, env)
+    except KeyError:
+      continue
+    if not ok: bad.append(str(e)[:200])
+  return bad
